@@ -203,8 +203,8 @@ NEEDS8 = {
  "C16A": ("src/demand/{aggregate,slice}.rs service_needed_by_n_jobs_per_component: fast path 'max_jobs >= delta => unrestricted demand'", "a bursty component with more arrivals than time units in the window and delta <= max_jobs < its job count"),
  "C17A": ("src/fixed_priority/fully_preemptive.rs: fast path returns the busy-window length L when there are no interfering tasks", "an analysed task without interference whose busy window spans several of its own jobs not all at offset 0 (jitter, C + J > T): adding a tiny task LOWERS the bound"),
  "C18A": ("src/fifo/rta.rs: the scan over offsets stops as soon as the per-offset bound drops below the running maximum ('backlog drains')", "a jittered/bursty task whose second release in the busy window is the worst case with a step of another task in between where the bound dips ((5,20,J15),(1,3): 6 instead of 7) - unsafe, hence not attained"),
- "C19A": ("PLACEHOLDER19", "PLACEHOLDER19N"),
- "C04A": ("PLACEHOLDER04", "PLACEHOLDER04N"),
+ "C19A": ("src/fifo/rta.rs: search space cut at A + 1 < L instead of A < L (same slip as round-1 C03-B, submitted independently for C19)", "a busy window of length 1 (total demand released at one instant is one service unit): FIFO returns Ok(0) while rta_event_source on a dedicated supply and NP-EDF return Ok(1)"),
+ "C04A": ("src/ros2/ecrts19.rs rta_polling_point_callback: own WCET looked up with least_wcet_in_interval(response) instead of (prefix + response) (same slip as round-1 C07-A, submitted independently for C04)", "a non-scalar cost model of the analysed callback with a cheaper later frame, a later own offset dominating and a higher-priority release in the cut-off part of the window (0.15 % of a two-callback multiframe grid); scalar costs are unaffected"),
  "C20A": ("src/arrival/curve.rs: number_arrivals multiplies full windows by jobs_in_largest_known_distance() instead of the deleted jobs_within_largest_known_distance() ('duplicate helper')", "a plain Curve whose delta-min vector ends in a plateau ([0,10,10]) queried at/after the largest distance; as an end-of-chain callback in bw::rta_subchain the debug-only step cross-check panics while release returns Ok"),
 }
 
